@@ -9,12 +9,16 @@
 //  Streams: the general stream (no / Jacobi preconditioner), a preconditioner stream (Jacobi, a poor diagonal SPD one, a poor
 //  tridiagonal SPD one), a loose-tolerance stream (graded spectrum, columns lock at different iterations and unlock again: pins the
 //  per-iteration list of removed columns), a near-convergence stress stream (Jacobi preconditioner, tolerance at the default and
-//  near the attainable accuracy: the Gram matrix of [X R D] degenerates), crafted exits.
+//  near the attainable accuracy: the Gram matrix of [X R D] degenerates), crafted exits; histories of public calls on ONE object
+//  (compute / setB / setPreconditioner / setConstraints / compute ...: fresh-twin bit equality + predicate for the CURRENT problem
+//  after every compute, whole-history correspondence against the model object); indefinite and negative definite A (prescribed
+//  spectra); a deterministic collapse family for the final B-orthonormality guard (a column of X of B-norm ~0).
 #include "common.h"
 #include <memory>
 #include <Eigen/Core>
 #include <Eigen/SparseCore>
 #include <Eigen/Eigenvalues>
+#include <Eigen/QR>
 #include <Spectra/contrib/LOBPCGSolver.h>
 using namespace vh;
 
@@ -31,6 +35,8 @@ struct SpectraVerifAccess {
     static Sp& B(Solver& s) { return s.m_B; }
     static Sp& T(Solver& s) { return s.m_preconditioner; }
     static bool withT(Solver& s) { return s.flag_with_preconditioner; }
+    static bool withB(Solver& s) { return s.flag_with_B; }
+    static bool withY(Solver& s) { return s.flag_with_constraints; }
     static int n(Solver& s) { return s.m_n; }
     static int nev(Solver& s) { return s.m_nev; }
     static int orth(Solver& s, Sp& M, Sp& B, Sp& BM, bool has = false) { return s.orthogonalizeInPlace(M, B, BM, has); }
@@ -225,6 +231,88 @@ static Case gen_graded(Rng& g, int k, bool withB, int tk, double tolL2, int J) {
     return c;
 }
 
+// SPD tridiagonal (strictly diagonally dominant): diag d0 + dv u, off-diagonal off u
+static Mat gen_spd_tridiag(Rng& g, int n, double d0, double dv, double off) {
+    Mat B = Mat::Zero(n, n);
+    for (int i = 0; i < n; i++) { B(i, i) = d0 + dv * g.sym(); if (i + 1 < n) B(i, i + 1) = B(i + 1, i) = off * g.sym(); }
+    return B;
+}
+
+// indefinite / negative definite A.  Prescribed spectrum: A = Q diag(lam) Q', Q a product of three random Householder
+// reflectors (dense A); or sparse banded with a negative head.  kind = q % 4:
+//  0 indef-spec   m <= k large negative eigenvalues (-L, -L + 3, ...; L = 8..14) well below a group around zero (spacing ~1.8, both
+//                 signs; variant `pair`: a symmetric pair -y, +y among the wanted values), then a dense positive tail: the k
+//                 algebraically smallest are NOT the k smallest in magnitude
+//  1 negdef-spec  negative definite, both ends of the spectrum well separated (gaps 2..3), dense middle: the k smallest have the
+//                 LARGEST magnitude, the k smallest in magnitude are the k largest
+//  2 indef-band   diag = shift + step * i (shift < 0), off-diagonals -1 and 0.4 at distance 7 (the observer's family)
+//  3 negdef-band  the negative of a positive definite band matrix: diag = -(1.5 + step * i), off-diagonals 0.5 and 0.2 at distance 5
+static Case gen_indef(Rng& g, int q, bool thorough) {
+    Case c; static const int ks[] = {2, 3, 3, 4, 2, 5};
+    c.k = ks[(q / 4) % 6]; const int k = c.k; c.n = 5 * k + 5 + g.range(0, thorough ? 24 : 10); const int n = c.n;
+    const int kind = q % 4; c.withB = (q / 4) % 2 == 1; const int tk = (q / 8) % 3;   // preconditioner: none / 1/(|a_ii| + 1) / poor diagonal SPD
+    const bool pair = kind == 0 && (q / 16) % 2 == 1;
+    c.cls = std::string(kind == 0 ? (pair ? "indef-pair" : "indef-spec") : kind == 1 ? "negdef-spec" : kind == 2 ? "indef-band" : "negdef-band") + (c.withB ? "+B" : "");
+    c.A = Mat::Zero(n, n);
+    if (kind == 2) {
+        double shift = -(3.0 + 2.0 * k + 4.0 * g.unit()), step = 1.6 + g.unit();
+        for (int i = 0; i < n; i++) { c.A(i, i) = shift + step * i; if (i + 1 < n) c.A(i, i + 1) = c.A(i + 1, i) = -1.0; if (i + 7 < n && i % 3 == 0) c.A(i, i + 7) = c.A(i + 7, i) = 0.4; }
+    } else if (kind == 3) {
+        double step = 1.5 + g.unit();
+        for (int i = 0; i < n; i++) { c.A(i, i) = -(1.5 + step * i + 0.3 * g.unit()); if (i + 1 < n) c.A(i, i + 1) = c.A(i + 1, i) = 0.5 * g.sym(); if (i + 5 < n && i % 2 == 0) c.A(i, i + 5) = c.A(i + 5, i) = 0.2; }
+    } else {
+        Vec lam(n);
+        if (kind == 1) {
+            double x = 0; for (int i = 0; i < n; i++) { lam(i) = x; x += (i <= k || i >= n - k - 2) ? 2.0 + g.unit() : 0.3 + 0.4 * g.unit(); }
+            double top = lam(n - 1) + 0.5 + 2.0 * g.unit(); for (int i = 0; i < n; i++) lam(i) -= top;
+        } else {
+            int m = 1 + g.range(0, k - 1);                      // m <= k large negative values
+            double L = 8.0 + 6.0 * g.unit();
+            for (int i = 0; i < m; i++) lam(i) = -L + 3.0 * i + 0.5 * g.unit();
+            double x = -1.8 * (k + 1 - m) / 2.0;               // group around zero
+            for (int i = m; i < n; i++) { lam(i) = x + 0.3 * g.sym(); x += (i < m + k + 1) ? 1.8 : 0.5; }
+            if (pair && m + 1 < n) { double y = 0.7 + 0.2 * g.unit(); lam(m) = -y; lam(m + 1) = y; }
+        }
+        std::sort(lam.data(), lam.data() + n);
+        Mat Q = Mat::Identity(n, n);
+        for (int r = 0; r < 3; r++) { Vec v(n); for (int i = 0; i < n; i++) v(i) = g.sym(); v /= v.norm(); Q = Q - 2.0 * (Q * v) * v.transpose(); }
+        Mat M = Q * lam.asDiagonal() * Q.transpose(); c.A = 0.5 * (M + M.transpose());
+    }
+    c.B = Mat::Identity(n, n); if (c.withB) c.B = gen_spd_tridiag(g, n, 1.5, 0.5, 0.2);
+    c.T = Mat::Identity(n, n); c.withT = tk != 0;
+    if (tk == 1) { for (int i = 0; i < n; i++) c.T(i, i) = 1.0 / (std::fabs(c.A(i, i)) + 1.0); c.cls += "+Tabs"; }
+    if (tk == 2) { for (int i = 0; i < n; i++) c.T(i, i) = 0.05 + 5.0 * std::fabs(g.sym()); c.cls += "+Tpoor"; }
+    c.X0 = Mat(n, k); for (int j = 0; j < k; j++) for (int i = 0; i < n; i++) c.X0(i, j) = g.sym();
+    static const double tols[] = {1e-5, 1e-4, 1e-6};
+    c.tol = tols[g.range(0, 2)]; c.J = thorough ? 10 : 5;
+    return c;
+}
+
+// collapse family (deterministic in p, the same in every seed): A = diag(1, 3, 5, ...) + eps_p on the first off-diagonal (graded,
+// well separated), B SPD tridiagonal or none, Jacobi preconditioner or none, X0 = [e_0 .. e_{k-1}] * M with a dense nonsingular
+// k x k block M (a start block supported on the first k nodes).  A and B are tridiagonal, so A X and B X live in span(e_0..e_k) and
+// every Galerkin residual is a multiple of e_k: the residual block of iteration 0 has rank ONE.  The LDLT of R'BR then meets a
+// second pivot that is pure rounding: if it is negative, the complex square root in orthogonalizeInPlace is imaginary and `.real()`
+// ZEROES that column of R, while the Gram matrix of the Rayleigh-Ritz step carries Identity for R'BR: a phantom direction with Ritz
+// value 0 below the spectrum of a positive definite A; the step selects it and a column of X becomes ~0.
+static Case gen_collapse(int p) {
+    Case c; c.k = 2 + p % 3; const int k = c.k; c.n = 5 * k + 2 + p % 5; const int n = c.n;
+    const int band = (k >= 3 && (p / 8) % 3 == 2) ? 2 : 1;                      // band 2: residuals live in span(e_k, e_{k+1}): rank two, k >= 3 columns
+    c.withB = (p / 2) % 2 == 1; c.cls = std::string("collapse") + (band == 2 ? "-band2" : "") + (c.withB ? "+B" : "");
+    Rng g(977, 26, p);                                     // fixed constants: not a function of VERIF_SEED
+    const double eps = 0.2 + 0.013 * (p % 16);
+    c.A = Mat::Zero(n, n);
+    for (int i = 0; i < n; i++) {
+        c.A(i, i) = 2.0 * i + 1.0; if (i + 1 < n) c.A(i, i + 1) = c.A(i + 1, i) = eps * (1.0 + 0.3 * g.sym());
+        if (band == 2 && i + 2 < n) c.A(i, i + 2) = c.A(i + 2, i) = 0.5 * eps * (1.0 + 0.3 * g.sym());
+    }
+    c.B = Mat::Identity(n, n); if (c.withB) c.B = gen_spd_tridiag(g, n, 2.0, 0.5, 0.4);
+    set_precond(c, (p / 4) % 2, g);
+    c.X0 = Mat::Zero(n, k); for (int j = 0; j < k; j++) for (int i = 0; i < k; i++) c.X0(i, j) = g.sym() + (i == j ? 2.0 : 0.0);
+    c.tol = 0.0; c.J = 3;
+    return c;
+}
+
 struct Obs { bool threw = false; std::string what; int info = -1; Vec evals; Mat evecs, coef, resid, X; };
 static Solver* make(const Case& c) {
     Sp As = c.A.sparseView(), Xs = c.X0.sparseView();
@@ -292,14 +380,18 @@ static bool case_from_json(const std::string& t, Case& c, int& maxit) {
 static long double maxabs(const LMat& m) { long double r = 0; for (int j = 0; j < m.cols(); j++) for (int i = 0; i < m.rows(); i++) { long double a = fabsl(m(i, j)); if (!(a <= r)) r = a; } return r; }
 static bool finite_all(const Mat& m) { for (int j = 0; j < m.cols(); j++) for (int i = 0; i < m.rows(); i++) if (!std::isfinite(m(i, j))) return false; return true; }
 
-// property predicate on one finished run (maxit large).  Constants: see checks/c17.py META.
-static void oracle(const Case& c, int maxit, Out& out) {
+// property predicate on one finished compute() of the real class: `c` describes the CURRENT problem of the object (A, the B and
+// T last set, tolerance of this call), `o` what the object hands out, `rj(extra)` the replay of the run.  `cp` prefixes the counters.
+// Y (optional): constraints set with setConstraints(): the reference is then the pencil restricted to {x : Y'Bx = 0}.
+// Constants: see checks/c17.py META.
+typedef std::function<std::string(const std::string&)> RJ;
+static void judge(const Case& c, int maxit, const Obs& o, Out& out, const RJ& rj, const std::string& cp = "oracle_", const Mat* Y = nullptr) {
     const int n = c.n, k = c.k;
-    std::string rj = case_json(c, maxit);
-    Obs o = run_real(c, maxit, c.tol);
-    out.count("oracle_runs");
+    const bool main_stream = cp == "oracle_";
+    auto case_json = [&](const Case&, int, const std::string& extra = "") { return rj(extra); };   // every failure below carries the replay of the caller
+    out.count(cp + "runs");
     if (o.threw) {
-        out.count("oracle_threw");
+        out.count(cp + "threw");
         std::string reason = o.what.find("ncv") != std::string::npos ? "ncv" : "other";
         out.fail("compute-throws", "LOBPCGSolver::compute(" + str(maxit) + ", tol) with n=" + str(n) + ", k=" + str(k) + " (5k<n, full-rank X0) throws: " + o.what,
                  case_json(c, maxit, ",\"reason\":\"" + reason + "\",\"pred\":\"throws\""));
@@ -311,10 +403,15 @@ static void oracle(const Case& c, int maxit, Out& out) {
     long double tolL2 = (long double) c.tol * n;
     LMat A = c.A.cast<long double>(), B = c.B.cast<long double>();
     if (o.info == 0) {
-        out.count("oracle_success");
+        out.count(cp + "success");
         // dense generalized reference: L^-1 A L^-T in long double via double Cholesky refinement is unnecessary at these sizes: use Eigen's solver in long double
-        Eigen::GeneralizedSelfAdjointEigenSolver<LMat> ges(A, B);
-        LVec lam = ges.eigenvalues();
+        LVec lam;
+        if (Y && Y->cols() > 0) {
+            // constraints: Z = basis of {x : (BY)'x = 0} (last n - m columns of the Householder Q of BY), reference pencil (Z'AZ, Z'BZ)
+            LMat BY = B * Y->cast<long double>(); const int m = (int) BY.cols();
+            Eigen::HouseholderQR<LMat> qr(BY); LMat Q = qr.householderQ(); LMat Z = Q.rightCols(n - m);
+            Eigen::GeneralizedSelfAdjointEigenSolver<LMat> gz(Z.transpose() * A * Z, Z.transpose() * B * Z); lam = gz.eigenvalues();
+        } else { Eigen::GeneralizedSelfAdjointEigenSolver<LMat> ges(A, B); lam = ges.eigenvalues(); }
         Eigen::SelfAdjointEigenSolver<LMat> eb(B); long double bmin = eb.eigenvalues()(0);
         LMat X = o.X.cast<long double>(); LVec th = o.evals.cast<long double>();
         // (a) ascending
@@ -328,7 +425,7 @@ static void oracle(const Case& c, int maxit, Out& out) {
             long double gap = 1e300L; for (int i = 0; i < k && i + 1 < lam.size(); i++) gap = std::min(gap, lam(i + 1) - lam(i));
             long double b0 = 4 * tolL2 / sqrtl(bmin);
             bool resolves = b0 < 0.25L * gap;
-            out.count(resolves ? "oracle_smallest_strong" : "oracle_smallest_weak");
+            out.count(cp + (resolves ? "smallest_strong" : "smallest_weak"));
             for (int i = 0; i < k && i < th.size(); i++) {
                 long double bound = b0 + 1e-9L * (1 + fabsl(lam(i)));
                 if (resolves) {
@@ -343,12 +440,17 @@ static void oracle(const Case& c, int maxit, Out& out) {
         // (c) internal X is B-orthonormal: max |X'BX - I| <= 1e-8
         if (X.rows() == n && X.cols() == k) {
             long double e = maxabs(X.transpose() * B * X - LMat::Identity(k, k));
-            { int d0 = e > 0 ? (int) std::floor(std::log10((double) e)) : -99; out.count("xbx_err_1e" + str(d0 < -16 ? -16 : d0)); }
+            if (main_stream) { int d0 = e > 0 ? (int) std::floor(std::log10((double) e)) : -99; out.count("xbx_err_1e" + str(d0 < -16 ? -16 : d0)); }
             // graded: 1e-8 is the stated bound of the property clause; beyond 1e-4 the block is not an orthonormal basis in any useful sense
             int dec = e > 0 ? (int) std::floor(std::log10((double) e)) : -99;
             if (!(e <= 1e-4L)) out.fail("X-far-from-B-orthonormal", "internal X: max|X'BX - I| = " + str((double) e), case_json(c, maxit, ",\"pred\":\"xbx-gross\""));
             else if (!(e <= 1e-8L)) out.fail("X-not-B-orthonormal", "info = Success but the internal iterate has max|X'BX - I| = " + str((double) e) + " (n=" + str(n) + ", k=" + str(k) + "): B-orthonormality is lost in one Rayleigh-Ritz step and never repaired (the Gram matrix assumes X'BX = I)", case_json(c, maxit, ",\"pred\":\"xbx\",\"decade\":" + str(dec)));
         } else out.fail("X-shape", "internal X is " + str(X.rows()) + "x" + str(X.cols()), case_json(c, maxit, ",\"pred\":\"xshape\""));
+        // (c') constraints: the returned block is B-orthogonal to Y: max |Y'BX| <= 1e-8 max(1, |Y|)
+        if (Y && Y->cols() > 0 && X.rows() == n) {
+            LMat Yl = Y->cast<long double>(); long double e = maxabs(Yl.transpose() * B * X);
+            if (!(e <= 1e-8L * std::max<long double>(1, maxabs(Yl)))) out.fail("constraints-violated", "info = Success but max|Y'BX| = " + str((double) e) + " for the constraint block Y", case_json(c, maxit, ",\"pred\":\"ybx\""));
+        }
         // (d) eigenvectors() is n x k with E'BE = I
         if (o.evecs.rows() != n || o.evecs.cols() != k)
             out.fail("eigenvectors-not-n-by-k", "eigenvectors() is " + str(o.evecs.rows()) + "x" + str(o.evecs.cols()) + " for n=" + str(n) + ", k=" + str(k) + " (the Ritz coefficient matrix of the last Rayleigh-Ritz step, not the iterate X)",
@@ -369,8 +471,13 @@ static void oracle(const Case& c, int maxit, Out& out) {
             for (int j = 0; j < k; j++) { long double nr = o.resid.col(j).cast<long double>().norm(); if (!(nr < tolL2 * (1 + 1e-12L))) { out.fail("success-above-tol", "info = Success but residual column " + str(j) + " has norm " + str((double) nr) + " >= " + str((double) tolL2), case_json(c, maxit, ",\"pred\":\"tol\"")); break; } }
         } else out.fail("residuals-shape", "residuals() is " + str(o.resid.rows()) + "x" + str(o.resid.cols()), case_json(c, maxit, ",\"pred\":\"rshape\""));
     } else {
-        out.count("oracle_notsuccess_info" + str(o.info));
+        out.count(cp + "notsuccess_info" + str(o.info));
     }
+}
+
+static void oracle(const Case& c, int maxit, Out& out) {
+    Obs o = run_real(c, maxit, c.tol);
+    judge(c, maxit, o, out, [&](const std::string& e) { return case_json(c, maxit, e); });
 }
 
 // a second compute() on the same object with a tolerance it cannot reach in one iteration: the status must say so
@@ -389,6 +496,33 @@ static void oracle_second(const Case& c, int maxit, Out& out) {
 }
 
 // ---------------------------------------------------------------------------------------------------------------- correspondence
+// the recorded kernel outputs of one compute(): `OX … E0 … IT …`
+static void put_trace(std::ostringstream& q, const Trace& tr) {
+    q << " OX " << tr.orthX; if (tr.orthX) put_dense(q, tr.X1);
+    q << " E0 " << tr.eig0; if (tr.eig0) { put_dense(q, tr.theta0); put_dense(q, tr.C0); }
+    int nrec = 0; for (auto& r : tr.it) if (r.orthR >= 0) nrec++;
+    q << " IT " << nrec;
+    for (auto& r : tr.it) {
+        if (r.orthR < 0) continue;
+        q << " R " << r.orthR << " " << r.bs; if (r.orthR == 1) put_dense(q, r.R);
+        q << " D " << r.orthD; if (r.orthD == 1) put_dense(q, r.D);
+        q << " RR " << r.rr; if (r.rr == 0) { q << " " << r.C.rows(); put_dense(q, r.theta); put_dense(q, r.C); }
+    }
+}
+// the observable state after one compute() of the real object (+ `sh`: the shadow reproduced it bit for bit) and the branch counters
+static void put_answer(std::ostringstream& a, const Obs& real, const Trace& tr, bool eq, Out& out) {
+    // a column that had passed the norm test and is back in the active block one iteration later (soft locking)
+    for (size_t i = 0; i + 1 < tr.it.size(); i++) for (int d : tr.it[i].del) if (std::find(tr.it[i + 1].del.begin(), tr.it[i + 1].del.end(), d) == tr.it[i + 1].del.end()) { out.count("iter_with_unlocked_column"); break; }
+    int done = 0; for (auto& r : tr.it) if (r.completed) done++;
+    a << "threw=" << (real.threw ? 1 : 0) << " info=" << real.info << " iters=" << done << " dels=";
+    for (auto& r : tr.it) { a << "["; for (size_t i = 0; i < r.del.size(); i++) a << (i ? "," : "") << r.del[i]; a << "]"; }
+    put_shape(a, "evals", real.evals); put_shape(a, "evecs", real.evecs); put_shape(a, "coef", real.coef); put_shape(a, "resid", real.resid); put_shape(a, "X", real.X);
+    a << " sh=" << (eq ? 1 : 0);
+    if (!eq) out.count("shadow_differs");
+    if (tr.guard == 0) out.count("final_guard_failed"); if (tr.guard == 1) out.count("final_guard_passed");
+    if (real.threw) out.count("exit_threw"); else out.count("info_" + str(real.info));
+    for (auto& r : tr.it) { if (r.orthR == 0) out.count("exit_orthR_failed"); if (r.orthD == 0) out.count("exit_orthD_failed"); if (r.rr == 1) out.count("exit_rr_notconverged"); if (r.rr == 4) out.count("exit_gram_failed"); if (!r.del.empty() && r.bs > 0) out.count("iter_with_removed_columns"); }
+}
 static void corr_case(const Case& c, Out& out) {
     std::vector<int> cuts = c.cuts; if (cuts.empty()) for (int j = 0; j <= c.J; j++) cuts.push_back(j);
     const double gthr = sqrt(Eigen::NumTraits<double>::epsilon());   // the threshold of the B-orthonormality guard, as the code computes it
@@ -398,37 +532,167 @@ static void corr_case(const Case& c, Out& out) {
         shadow_compute(*sh, j, c.tol, tr);
         Obs so = observe(*sh); so.threw = tr.threw;
         bool eq = same_obs(real, so);
-        if (!eq) out.count("shadow_differs");
         std::ostringstream q;
         q << "lobpcg " << c.n << " " << c.k << " " << j << " " << dbits(c.tol) << " G " << dbits(gthr) << " A"; put_sparse(q, c.A);
         q << " B " << (c.withB ? 1 : 0); if (c.withB) put_sparse(q, c.B);
         q << " T " << (c.withT ? 1 : 0); if (c.withT) put_sparse(q, c.T);
         q << " X0"; put_dense(q, c.X0);
-        q << " OX " << tr.orthX; if (tr.orthX) put_dense(q, tr.X1);
-        q << " E0 " << tr.eig0; if (tr.eig0) { put_dense(q, tr.theta0); put_dense(q, tr.C0); }
-        int nrec = 0; for (auto& r : tr.it) if (r.orthR >= 0) nrec++;
-        q << " IT " << nrec;
-        for (auto& r : tr.it) {
-            if (r.orthR < 0) continue;
-            q << " R " << r.orthR << " " << r.bs; if (r.orthR == 1) put_dense(q, r.R);
-            q << " D " << r.orthD; if (r.orthD == 1) put_dense(q, r.D);
-            q << " RR " << r.rr; if (r.rr == 0) { q << " " << r.C.rows(); put_dense(q, r.theta); put_dense(q, r.C); }
-        }
-        // a column that had passed the norm test and is back in the active block one iteration later (soft locking)
-        for (size_t i = 0; i + 1 < tr.it.size(); i++) for (int d : tr.it[i].del) if (std::find(tr.it[i + 1].del.begin(), tr.it[i + 1].del.end(), d) == tr.it[i + 1].del.end()) { out.count("iter_with_unlocked_column"); break; }
-        std::ostringstream a;
-        int done = 0; for (auto& r : tr.it) if (r.completed) done++;
-        a << "threw=" << (real.threw ? 1 : 0) << " info=" << real.info << " iters=" << done << " dels=";
-        for (auto& r : tr.it) { a << "["; for (size_t i = 0; i < r.del.size(); i++) a << (i ? "," : "") << r.del[i]; a << "]"; }
-        put_shape(a, "evals", real.evals); put_shape(a, "evecs", real.evecs); put_shape(a, "coef", real.coef); put_shape(a, "resid", real.resid); put_shape(a, "X", real.X);
-        a << " sh=" << (eq ? 1 : 0);
+        put_trace(q, tr);
+        std::ostringstream a; put_answer(a, real, tr, eq, out);
         out.corr(q.str(), a.str());
         out.count("cuts");
-        if (tr.guard == 0) out.count("final_guard_failed"); if (tr.guard == 1) out.count("final_guard_passed");
-        if (real.threw) out.count("exit_threw"); else out.count("info_" + str(real.info));
-        for (auto& r : tr.it) { if (r.orthR == 0) out.count("exit_orthR_failed"); if (r.orthD == 0) out.count("exit_orthD_failed"); if (r.rr == 1) out.count("exit_rr_notconverged"); if (r.rr == 4) out.count("exit_gram_failed"); if (!r.del.empty() && r.bs > 0) out.count("iter_with_removed_columns"); }
     }
     out.count("class_" + c.cls); out.count("k_" + str(c.k));
+}
+
+// ---------------------------------------------------------------------------------------------------------------- histories
+// One LOBPCGSolver object: construction from (A, X0) [+ setB / setPreconditioner as the Case says], then a script of public calls.
+// kind 1 setB(M), 2 setPreconditioner(M), 3 setConstraints(M), 4 compute(maxit, tol).
+struct HOp { int kind = 0; Mat M; int maxit = 0; double tol = 0; };
+struct Hist { Case c; std::vector<HOp> ops; };
+static std::string hist_json(const Hist& h, size_t upto, const std::string& extra) {
+    std::ostringstream o; o << extra << ",\"step\":" << upto << ",\"hist\":[";
+    bool f = true; auto put = [&](uint64_t x) { o << (f ? "" : ",") << x; f = false; };
+    for (size_t i = 0; i <= upto && i < h.ops.size(); i++) {
+        const HOp& op = h.ops[i]; put(op.kind);
+        if (op.kind == 1 || op.kind == 2) {
+            uint64_t nnz = 0; for (int r = 0; r < op.M.rows(); r++) for (int cc = 0; cc < op.M.cols(); cc++) if (op.M(r, cc) != 0.0) nnz++;
+            put(nnz); for (int r = 0; r < op.M.rows(); r++) for (int cc = 0; cc < op.M.cols(); cc++) if (op.M(r, cc) != 0.0) { put(r); put(cc); put(dbits(op.M(r, cc))); }
+        } else if (op.kind == 3) { put(op.M.cols()); for (int cc = 0; cc < op.M.cols(); cc++) for (int r = 0; r < op.M.rows(); r++) put(dbits(op.M(r, cc))); }
+        else { put(op.maxit); put(dbits(op.tol)); }
+    }
+    o << "]";
+    int lastmaxit = 0; for (size_t i = 0; i <= upto && i < h.ops.size(); i++) if (h.ops[i].kind == 4) lastmaxit = h.ops[i].maxit;
+    return case_json(h.c, lastmaxit, o.str());
+}
+static bool hist_from_json(const std::string& t, Hist& h) {
+    auto v = jarr(t, "hist"); if (v.empty()) return false;
+    const int n = h.c.n; size_t i = 0;
+    while (i < v.size()) {
+        HOp op; op.kind = (int) v[i++];
+        if (op.kind == 1 || op.kind == 2) {
+            if (i >= v.size()) return false;
+            op.M = Mat::Zero(n, n); uint64_t nnz = v[i++]; if (i + 3 * nnz > v.size()) return false;
+            for (uint64_t e = 0; e < nnz; e++, i += 3) { if (v[i] >= (uint64_t) n || v[i + 1] >= (uint64_t) n) return false; op.M(v[i], v[i + 1]) = bitsd(v[i + 2]); }
+        } else if (op.kind == 3) {
+            if (i >= v.size()) return false;
+            int m = (int) v[i++]; if (m < 0 || m > n || i + (size_t) n * m > v.size()) return false;
+            op.M = Mat::Zero(n, m); for (int cc = 0; cc < m; cc++) for (int r = 0; r < n; r++) op.M(r, cc) = bitsd(v[i++]);
+        } else if (op.kind == 4) { if (i + 2 > v.size()) return false; op.maxit = (int) v[i++]; op.tol = bitsd(v[i++]); }
+        else return false;
+        h.ops.push_back(op);
+    }
+    return true;
+}
+static std::string hist_text(const Hist& h, size_t upto) {
+    std::string t = "LOBPCGSolver(A, X0)"; if (h.c.withB) t += "; setB(B0)"; if (h.c.withT) t += "; setPreconditioner(T0)";
+    for (size_t i = 0; i <= upto && i < h.ops.size(); i++) {
+        const HOp& op = h.ops[i];
+        t += op.kind == 1 ? "; setB(B" + str(i) + ")" : op.kind == 2 ? "; setPreconditioner(T" + str(i) + ")" : op.kind == 3 ? "; setConstraints(Y)" : "; compute(" + str(op.maxit) + ", " + str(op.tol) + ")";
+    }
+    return t;
+}
+
+// The whole history on ONE real object.  After every compute():
+//  (1) twin: a FRESH object constructed from (A, the block X the object held when compute() was entered) with the B / T / Y last
+//      set and the same compute() must hand out the same state bit for bit (compute() reads A, X, m_B, m_preconditioner, m_Y and the
+//      three flags, nothing else: neither an earlier status nor earlier results);
+//  (2) the property predicate `judge` for the CURRENT problem (A, current B, constraints Y);
+//  (3) correspondence (if `corr`, no constraints): a shadow object goes through the same history with shadow_compute; one request
+//      line for the whole history, answered by the model's object (`Obj`: members B, T, St; every compute() starts from the state the
+//      previous call left).
+static void run_hist(const Hist& h, Out& out, bool corr) {
+    const Case& c = h.c; const int n = c.n;
+    const double gthr = sqrt(Eigen::NumTraits<double>::epsilon());
+    std::unique_ptr<Solver> s(make(c)), sh;
+    for (auto& op : h.ops) if (op.kind == 3) corr = false;
+    if (corr) sh.reset(make(c));
+    Case cur = c; Mat Y; bool withY = false;
+    std::ostringstream q, a; int ncomp = 0;
+    q << "hist " << c.n << " " << c.k << " G " << dbits(gthr) << " A"; put_sparse(q, c.A);
+    q << " B " << (c.withB ? 1 : 0); if (c.withB) put_sparse(q, c.B);
+    q << " T " << (c.withT ? 1 : 0); if (c.withT) put_sparse(q, c.T);
+    q << " X0"; put_dense(q, c.X0);
+    q << " OPS";
+    out.count("hist_histories");
+    for (size_t oi = 0; oi < h.ops.size(); oi++) {
+        const HOp& op = h.ops[oi];
+        if (op.kind == 1) { Sp Ms = op.M.sparseView(); s->setB(Ms); if (sh) sh->setB(Ms); cur.B = op.M; cur.withB = true; q << " SB"; put_sparse(q, op.M); out.count("hist_setB"); continue; }
+        if (op.kind == 2) { Sp Ms = op.M.sparseView(); s->setPreconditioner(Ms); if (sh) sh->setPreconditioner(Ms); cur.T = op.M; cur.withT = true; q << " ST"; put_sparse(q, op.M); out.count("hist_setPreconditioner"); continue; }
+        if (op.kind == 3) { Sp Ms = op.M.sparseView(); s->setConstraints(Ms); Y = op.M; withY = true; out.count("hist_setConstraints"); continue; }
+        // ---- compute
+        cur.tol = op.tol;
+        const Sp Xin = Acc::X(*s), Ain = Acc::A(*s);
+        const int info_before = s->info();
+        bool threw = false; std::string what;
+        try { s->compute(op.maxit, op.tol); } catch (std::exception& e) { threw = true; what = e.what(); }
+        Obs o = observe(*s); o.threw = threw; o.what = what;
+        out.count("hist_computes"); out.count("hist_compute_after_info" + str(info_before)); ncomp++;
+        auto rj = [&](const std::string& e) { return hist_json(h, oi, e); };
+        // (1) fresh twin
+        {
+            Solver f(Ain, Xin);
+            if (cur.withB) { Sp Bs = cur.B.sparseView(); f.setB(Bs); }
+            if (cur.withT) { Sp Ts = cur.T.sparseView(); f.setPreconditioner(Ts); }
+            if (withY) { Sp Ys = Y.sparseView(); f.setConstraints(Ys); }
+            bool ft = false; try { f.compute(op.maxit, op.tol); } catch (std::exception&) { ft = true; }
+            Obs of = observe(f); of.threw = ft;
+            out.count("hist_twin_compared");
+            if (!same_obs(o, of))
+                out.fail("reuse-differs-from-fresh", "after " + hist_text(h, oi) + " the object reports info=" + str(o.info) + ", a fresh object built from (A, the block X held before this compute()) with the same B/T/Y and the same compute() reports info=" + str(of.info)
+                         + (same_bits(o.evals, of.evals) ? "" : "; eigenvalues() differ") + (same_bits(o.X, of.X) ? "" : "; eigenvectors() differ") + (same_bits(o.resid, of.resid) ? "" : "; residuals() differ")
+                         + ": compute() depends on something other than A, X, B, T, Y and its arguments", rj(",\"pred\":\"fresh\""));
+        }
+        // (2) the property for the current problem
+        judge(cur, op.maxit, o, out, rj, "oracle_hist_", withY ? &Y : nullptr);
+        if (withY && !threw && o.info == 0) out.count("oracle_hist_success_constrained");
+        // (3) correspondence
+        if (sh) {
+            Trace tr; shadow_compute(*sh, op.maxit, op.tol, tr);
+            Obs so = observe(*sh); so.threw = tr.threw;
+            bool eq = same_obs(o, so);
+            q << " C " << op.maxit << " " << dbits(op.tol); put_trace(q, tr);
+            if (ncomp > 1) a << " ;; ";
+            put_answer(a, o, tr, eq, out);
+            if (tr.threw || threw) { sh.reset(); }   // an exception left compute(): the two objects are no longer comparable statement by statement
+        }
+        if (threw) break;
+    }
+    if (corr && ncomp > 0) { out.corr(q.str(), a.str()); out.count("hist_corr_lines"); }
+    out.count("class_" + c.cls);
+}
+
+// history scripts (variant v = q % 7), on a small general-stream problem (k = 2..4):
+//  0  no B:  compute; setB(B'); compute (same tolerance)                      -- the pencil changes under a converged block
+//  1  B:     compute; setPreconditioner(Jacobi); compute (10 x looser)
+//  2  T:     compute; setB(B'); setPreconditioner(poor diagonal); compute (100 x tighter)
+//  3         compute(3) (unfinished); setB(B'); compute; compute(2) (nothing changed, converged block)
+//  4         compute; setConstraints(random Y); compute                        -- cannot converge: the status must say so
+//  5         compute(2) (unfinished); setConstraints(Y = eigenvectors 0..m-1 of the pencil); compute  -- deflation: next k values
+//  6  B:     compute; setB(B'); compute(n / 3); setB(B''); setPreconditioner(Jacobi); compute (other maxit)
+static Hist gen_hist(Rng& g, bool thorough, int q) {
+    Hist h; const int v = q % 7;
+    static const int idx_of[7][2] = {{0, 4}, {1, 3}, {2, 6}, {4, 1}, {0, 1}, {4, 3}, {1, 5}};   // gen_case index: k = ks[idx % 10], B = idx & 1, T = idx & 2
+    int idx = idx_of[v][(q / 7) % 2];
+    h.c = gen_case(g, false, idx); Case& c = h.c; const int n = c.n;
+    if (c.tol < 1e-8) c.tol = 1e-7; if (c.tol > 1e-4) c.tol = 1e-5;
+    c.cls = "hist" + str(v);
+    auto C = [&](int maxit, double tol) { HOp o; o.kind = 4; o.maxit = maxit; o.tol = tol; h.ops.push_back(o); };
+    auto S = [&](int kind, const Mat& M) { HOp o; o.kind = kind; o.M = M; h.ops.push_back(o); };
+    Mat B2 = gen_spd_tridiag(g, n, 2.5, 0.8, 0.3), B3 = gen_spd_tridiag(g, n, 1.2, 0.2, 0.15);
+    Mat TJ = Mat::Zero(n, n), TP = Mat::Zero(n, n); for (int i = 0; i < n; i++) { TJ(i, i) = 1.0 / c.A(i, i); TP(i, i) = 0.05 + 5.0 * std::fabs(g.sym()); }
+    if (v == 0) { C(n, c.tol); S(1, B2); C(n, c.tol); }
+    if (v == 1) { C(n, c.tol); S(2, TJ); C(n, 10 * c.tol); }
+    if (v == 2) { C(n, c.tol); S(1, B2); S(2, TP); C(n, c.tol / 100); }
+    if (v == 3) { C(3, c.tol); S(1, B2); C(n, c.tol); C(2, c.tol); }
+    if (v == 4) { Mat Y(n, 1); for (int i = 0; i < n; i++) Y(i, 0) = g.sym(); C(n, c.tol); S(3, Y); C(n, c.tol); }
+    if (v == 5) {
+        int m = 1 + (q / 7) % 2;
+        Eigen::GeneralizedSelfAdjointEigenSolver<Mat> ges(c.A, c.B); Mat Y = ges.eigenvectors().leftCols(m);
+        C(2, c.tol); S(3, Y); C(n, c.tol);
+    }
+    if (v == 6) { C(n, c.tol); S(1, B2); C(n / 3, c.tol); S(1, B3); S(2, TJ); C(n - 1, c.tol); }
+    return h;
 }
 
 int main(int argc, char** argv) {
@@ -440,6 +704,7 @@ int main(int argc, char** argv) {
         Case c; int maxit = 0;
         if (!case_from_json(t, c, maxit)) { std::cerr << "cannot parse replay\n"; return 2; }
         c.J = std::min(maxit, 12);
+        { Hist h; h.c = c; if (hist_from_json(t, h)) { h.c.cls = "replay-hist"; run_hist(h, out, true); out.finish(); return out.nfail ? 1 : 0; } }
         if (std::getenv("C17_TRACE")) {   // diagnostic: B-orthonormality of the internal iterate and residual norms at every cut
             LMat B = c.B.cast<long double>();
             for (int j = 0; j <= maxit; j++) { Obs o = run_real(c, j, c.tol); LMat X = o.X.cast<long double>();
@@ -495,6 +760,44 @@ int main(int argc, char** argv) {
             std::unique_ptr<Solver> sh(make(c)); Trace tr; shadow_compute(*sh, c.n, c.tol, tr);
             bool special = tr.guard == 0 || (!tr.it.empty() && tr.it.back().rr == 4);
             if (q < 2 || (special && ncorr < 3)) { if (q >= 2) ncorr++; c.cuts = {c.n}; corr_case(c, out); }
+        }
+    }
+    // ---- histories on ONE solver object: compute / setters with new arguments / compute again (twin + predicate on every compute;
+    //      correspondence of the whole history for the first ones without constraints)
+    for (int q = 0; q < (a.thorough() ? 140 : 14); q++) {
+        Rng g(a.seed, 25, q); Hist h = gen_hist(g, a.thorough(), q);
+        { std::ofstream lc(a.out + "/lastcase.txt"); lc << hist_json(h, h.ops.size() - 1, ""); }
+        run_hist(h, out, q < (a.thorough() ? 42 : 7));
+    }
+    // ---- indefinite and negative definite A (prescribed spectra with large negative eigenvalues; banded with a negative head),
+    //      with / without B, with / without preconditioner: the k returned values must be the k ALGEBRAICALLY smallest
+    for (int q = 0; q < (a.thorough() ? 240 : 24); q++) {
+        Rng g(a.seed, 27, q); Case c = gen_indef(g, q, a.thorough());
+        { std::ofstream lc(a.out + "/lastcase.txt"); lc << case_json(c, c.n); }
+        if (q < (a.thorough() ? 48 : 6)) corr_case(c, out);
+        oracle(c, c.n, out);
+        out.count("class_" + c.cls + "/oracle");
+    }
+    // ---- collapsed block in front of the final guard: see gen_collapse.  The tolerance is placed so that every column fails the test
+    //      in iteration 0 (rank-one residual block) and passes it after the first Rayleigh-Ritz step; the shadow tells which members of
+    //      the family end with all residual columns below the tolerance AND a failed guard whose SIGNED maximum is below the threshold
+    //      (a column of X of B-norm ~0, diagonal entry -1 of X'BX - I).  Oracle + correspondence on those (at most 3).
+    {
+        int hits = 0; std::vector<std::string> seen;
+        for (int p = 0; p < 400 && hits < 4; p++) {
+            Case c = gen_collapse(p);
+            if (std::find(seen.begin(), seen.end(), c.cls) != seen.end()) continue;   // one member per configuration (B / preconditioner / band)
+            Obs o0 = run_real(c, 0, 0.0); if (o0.threw || o0.resid.cols() != c.k) continue;
+            double mn = 1e300; for (int j = 0; j < c.k; j++) mn = std::min(mn, o0.resid.col(j).norm());
+            c.tol = 0.5 * mn / c.n;
+            std::unique_ptr<Solver> sh(make(c)); Trace tr; shadow_compute(*sh, c.n, c.tol, tr);
+            out.count("collapse_tried");
+            if (tr.threw || tr.guard != 0) continue;
+            Mat X = Mat(Acc::X(*sh)); Mat E = X.transpose() * (c.withB ? Mat(c.B * X) : X) - Mat::Identity(c.k, c.k);
+            if (!(E.maxCoeff() < 1e-9 && E.minCoeff() < -0.5)) continue;       // signed maximum tiny, some diagonal entry near -1
+            hits++; seen.push_back(c.cls); out.count("collapse_signed_guard_cases");
+            { std::ofstream lc(a.out + "/lastcase.txt"); lc << case_json(c, c.n); }
+            c.cuts = {0, 1, 2, c.n}; corr_case(c, out); oracle(c, c.n, out);
         }
     }
     // ---- sort_epairs on the real class (std::map keyed by the eigenvalue: equal keys collapse) vs the model's sortEpairs
